@@ -132,21 +132,15 @@ func run(c Case) (sig, msg string, o outcome) {
 			return
 		}
 		if c.B2 {
-			// The header CRC must be the CRC-16/XMODEM of size||bit stream. Bytes that follow the bits the
-			// canonical decoder consumes are not part of the container, and the Reader may or may not have
-			// pulled them in (read-ahead), so any prefix that covers at least the consumed bits is accepted.
+			// The header CRC must be the CRC-16/XMODEM of size||everything that follows: the Reader is given the
+			// compressed data as its input, so the sum covers all of it - also bytes behind the last bit the decoder
+			// needed (before fix fd60d10 the library summed only what its buffered reader had pulled in, and this
+			// check accepted any prefix; the C04 check showed that to deliver damaged messages).
 			got := binary.LittleEndian.Uint16(c.Stream)
 			body := c.Stream[2:]
-			need := 4 + (info.BitsUsed+7)/8
-			ok := false
-			for k := need; k <= len(body); k++ {
-				if ref.CRC16(body[:k]) == got {
-					ok = true
-					break
-				}
-			}
-			if !ok {
-				sig, msg = "close-ok-bad-crc", fmt.Sprintf("Close returned nil although the header CRC %04x is not the CRC-16/XMODEM of size||data (%04x over the consumed %d bytes, %04x over all %d)", got, ref.CRC16(body[:need]), need, ref.CRC16(body), len(body))
+			if ref.CRC16(body) != got {
+				need := 4 + (info.BitsUsed+7)/8
+				sig, msg = "close-ok-bad-crc", fmt.Sprintf("Close returned nil although the header CRC %04x is not the CRC-16/XMODEM of size||data (%04x over all %d bytes; the decoder needed %d of them)", got, ref.CRC16(body), len(body), need)
 			}
 		}
 	})
@@ -326,7 +320,11 @@ func genCase(t *rapid.T) Case {
 		}
 		c.Origin = "splice:" + origin + "+" + o2
 	default: // trailing garbage
-		z = append(z, rapid.SliceOfN(rapid.Byte(), 1, 64).Draw(t, "garbage")...)
+		if rapid.IntRange(0, 3).Draw(t, "long_garbage") == 0 { // longer than the read-ahead of a buffered reader
+			z = append(z, rapid.SliceOfN(rapid.Byte(), 4096, 4200).Draw(t, "garbage")...)
+		} else {
+			z = append(z, rapid.SliceOfN(rapid.Byte(), 1, 64).Draw(t, "garbage")...)
+		}
 		if rapid.Bool().Draw(t, "recrc") {
 			fixCRC(z, c.B2)
 		}
